@@ -30,6 +30,7 @@ Stmt(t) ==
       [] t = "JMPa" -> Op("jmp", "dir", "w", I("a")) [] t = "NOP" -> Op("nop", "imp", "", N(0))
       [] t = "C3" -> [k |-> "assign", n |-> "c", e |-> N(3)]
       [] t = "C10" -> [k |-> "assign", n |-> "c", e |-> N(16)] [] t = "C1234" -> [k |-> "assign", n |-> "c", e |-> N(4660)]
+      [] t = "Ec1234" -> [k |-> "sym", n |-> "c", e |-> N(4660)]
       [] t = "Ec5" -> [k |-> "sym", n |-> "c", e |-> N(5)] [] t = "Eca" -> [k |-> "sym", n |-> "c", e |-> I("a")]
       [] t = "Ea7" -> [k |-> "sym", n |-> "a", e |-> N(7)]
       [] t = "S1" -> Star(32768) [] t = "S2" -> Star(32770) [] t = "S3" -> Star(98304) [] t = "S4" -> Star(65534)
@@ -53,7 +54,7 @@ AlphaSeq ==
     CASE Family = "moves"  -> <<"S1", "S2", "S3", "S4", "S5", "A1", "A2", "A3", "DB", "DWa", "La", "NOP", "{", "}">>
       [] Family = "labels" -> <<"La", "Lc", "LDc", "LDWc", "JMPa", "DB", "DLa", "DLc", "C10", "C1234", "{", "N{", "}", "S4", "A2", "Eca">>
       [] Family = "scopes" -> <<"La", "Lc", "DLa", "DLc", "DLna", "DLnc", "C10", "Ec5", "Ea7", "{", "N{", "}", "DB">>
-      [] Family = "shadow" -> <<"Lc", "LDc", "C10", "C1234", "{", "}", "La", "DLa">>
+      [] Family = "shadow" -> <<"Lc", "LDc", "C10", "C1234", "{", "}", "La", "DLa", "Ec1234">>
       [] Family = "nest"   -> <<"C10", "La", "DLa", "DLc", "{", "}", "N{", "DLna">>
       [] Family = "macro0" -> <<"M0{", "}", "AP0", "La", "DLa", "DB", "{">>
       [] Family = "macros" -> <<"M1{", "M2{", "}", "AP1a", "AP1n", "AP1k", "AP2na", "AP1_", "APx", "DBp", "DLp", "DBa", "SPp", "La", "A5">>
@@ -61,6 +62,7 @@ AlphaSeq ==
       [] Family = "capture" -> <<"A5", "M2{", "}", "DBa", "DBp", "AP2na", "AP2ab", "La", "Lb">>
       [] Family = "splice" -> <<"M1{", "}", "{", "N{", "FOR02{", "IF1{", "SPp", "AP1k", "DB">>
       [] Family = "shadowram" -> <<"Lc", "LDc", "C10", "{", "}", "A2", "A1", "La">>
+      [] Family = "loopscope" -> <<"FOR02{", "N{", "}", "La", "DLna", "DLa", "DB">>
       [] Family = "tiny"   -> <<"La", "DB", "DLa", "{", "}", "S3">>
 Alphabet == Range(AlphaSeq)
 TokIndex(t) == CHOOSE j \in 1..Len(AlphaSeq) : AlphaSeq[j] = t
@@ -103,9 +105,16 @@ OpenStack(q, p, stk) == IF p > Len(q) THEN stk
                         ELSE OpenStack(q, p + 1, stk)
 ElseAllowed(q) == LET stk == OpenStack(q, 1, <<>>) IN stk # <<>> /\ stk[Len(stk)] = "if"
 
-VARIABLES ts, depth
-vars == <<ts, depth>>
-Init == ts = <<>> /\ depth = 0
+\* the name a token defines in the scope it stands in ("" if none)
+DefName(t) == CASE t \in {"La", "Ea7", "A5"} -> "a" [] t = "Lb" -> "b"
+                [] t \in {"Lc", "C10", "C1234", "C3", "Ec5", "Eca", "Ec1234"} -> "c" [] OTHER -> ""
+\* names defined so far in each open scope (a stack); re-definition in one scope is outside the statements,
+\* so such token strings are not extended (they would all be `unspec`)
+IsIfOpener(t) == t \in {"IF1{", "IF0{", "IFc{", "IFu{", "IFm{"}
+
+VARIABLES ts, depth, defd
+vars == <<ts, depth, defd>>
+Init == ts = <<>> /\ depth = 0 /\ defd = <<{}>>
 Next == /\ Len(ts) < MaxLen
         /\ \E t \in Alphabet :
              /\ (Len(ts) = 0 => (TokIndex(t) % NShards) = Shard)     \* shard by first token
@@ -115,6 +124,12 @@ Next == /\ Len(ts) < MaxLen
              /\ (t \in Openers => depth < 2)
              /\ depth' = (IF t \in Openers THEN depth + 1 ELSE IF t = "}" THEN depth - 1 ELSE depth)
              /\ Len(ts) + 1 + depth' <= MaxLen
+             /\ (DefName(t) = "" \/ DefName(t) \notin defd[Len(defd)])
+             /\ defd' = (IF t \in Openers THEN Append(defd, IF IsIfOpener(t) THEN defd[Len(defd)] ELSE {})
+                         ELSE IF t = "}" THEN SubSeq(defd, 1, Len(defd) - 1)
+                         ELSE IF t = "}E{" THEN [defd EXCEPT ![Len(defd)] = defd[Len(defd) - 1]]
+                         ELSE IF DefName(t) # "" THEN [defd EXCEPT ![Len(defd)] = @ \cup {DefName(t)}]
+                         ELSE defd)
              /\ ts' = Append(ts, t)
 Complete == ts # <<>> /\ depth = 0
 
